@@ -341,6 +341,7 @@ class ThreadPoolServer(Server):
         self._active_connection_queue = Queue.Queue()
         # a dictionary fd -> connection
         self.fd_to_conn = {}
+        self._fd_to_conn_lock = threading.Lock()
         # a polling object to be used be the polling thread
         self.poll_object = poll()
 
@@ -384,17 +385,17 @@ class ThreadPoolServer(Server):
             # the connection has already been unregistered
             pass
 
-    def _drop_connection(self, fd):
-        '''removes a connection by closing it and removing it from internal structs'''
-        conn = None
-
+    def _drop_connection(self, fd, conn=None):
+        '''removes a connection by closing it and removing it from internal structs.
+        If the connection is given, the entry is removed only while it still belongs to that connection: the
+        descriptor number of a connection that is already closed may have been handed to a new client'''
         # cleanup fd_to_conn dictionnary
-        try:
-            conn = self.fd_to_conn[fd]
-            del self.fd_to_conn[fd]
-        except KeyError:
-            # the active connection has already been removed
-            pass
+        with self._fd_to_conn_lock:
+            current = self.fd_to_conn.get(fd)
+            if current is not None and (conn is None or current is conn):
+                # otherwise the active connection has already been removed
+                del self.fd_to_conn[fd]
+                conn = current
 
         # close connection
         self.logger.info("Closing connection for fd %d", fd)
@@ -442,15 +443,16 @@ class ThreadPoolServer(Server):
     def _serve_requests(self, fd):
         '''Serves requests from the given connection and puts it back to the appropriate queue'''
         # serve a maximum of RequestBatchSize requests for this connection
+        conn = self.fd_to_conn[fd]
         for _ in range(self.request_batch_size):
             try:
-                if not self.fd_to_conn[fd].poll():  # note that poll serves the request
+                if not conn.poll():  # note that poll serves the request
                     # we could not find a request, so we put this connection back to the inactive set
                     self._add_inactive_connection(fd)
                     return
             except EOFError:
                 # the connection has been closed by the remote end. Close it on our side and return
-                self._drop_connection(fd)
+                self._drop_connection(fd, conn)
                 return
             except Exception:
                 # put back the connection to active queue in doubt and raise the exception to the upper level
@@ -508,7 +510,8 @@ class ThreadPoolServer(Server):
             addrinfo = sock.getpeername()
             fd = conn.fileno()
             self.logger.debug("Created connection to %s with fd %d", addrinfo, fd)
-            self.fd_to_conn[fd] = conn
+            with self._fd_to_conn_lock:
+                self.fd_to_conn[fd] = conn
             self._add_inactive_connection(fd)
             self.clients.clear()
         except Exception:
